@@ -410,6 +410,7 @@ structure JSt where
   tm : TextMon := {}
   lastObs : List (Nat × List OEntry) := []
   lastSnap : List (Nat × String) := []
+  trails : List (Nat × UInt64) := []    -- per handle: a hash of the calls that made it (lock-step pairs have equal trails)
   snapPairs : Nat := 0
   sliceSpecs : List (Nat × SliceSpec) := []
   mergeSpecs : List (Nat × MergeSpec) := []
@@ -731,7 +732,11 @@ def judgeLine2 (j : JSt) (lineNo : Nat) (opLine obsLine : String) : JSt :=
         if origin = "C14" then
           if x == y then j else j.reject "C14" lineNo "the graph after deploy_to() differs from the graph after the same direct calls"
         else if origin = "C10" ∨ origin = "C13" then
-          if x == y then j else j.reject "C10" lineNo "the same query on the original and on the clone gives different graphs"
+          -- only a pair in lock-step (the same calls on both since the clone) must look the same: a candidate of the
+          -- shrinker that dropped a call of one side is not a counter-example
+          if x == y then j
+          else if (j.trails.find? (·.1 = a)).map (·.2) ≠ (j.trails.find? (·.1 = b)).map (·.2) then j
+          else j.reject "C10" lineNo "the same query on the original and on the clone gives different graphs"
         else j
       | _, _ => j
     | _, _ => j
@@ -789,6 +794,7 @@ def judgeLine2 (j : JSt) (lineNo : Nat) (opLine obsLine : String) : JSt :=
           | _, _ => false
         if x = y then { j with snapPairs := j.snapPairs + 1 }
         else if !(x.startsWith "ok" && y.startsWith "ok" && bothJudged) then j
+        else if (j.trails.find? (·.1 = a)).map (·.2) ≠ (j.trails.find? (·.1 = b)).map (·.2) then j   -- not in lock-step
         else j.reject "C10" lineNo "the internal state of the clone differs from the original's (vertex slots, member lists, counters or allocator position)"
       | _, _ => j
     | _, _ => j
@@ -884,8 +890,37 @@ def judgeLine2 (j : JSt) (lineNo : Nat) (opLine obsLine : String) : JSt :=
             | _ => j
   | _ => j
 
+/-- the trail of a handle: a hash of the calls that made the graph it holds. A clone starts with the trail of its
+    original; read-only lines leave it alone. Two handles with equal trails have received the same calls. -/
+def bumpTrail (j : JSt) (opLine : String) : JSt :=
+  let get (h : Nat) : UInt64 := ((j.trails.find? (·.1 = h)).map (·.2)).getD 0
+  let set (j : JSt) (h : Nat) (t : UInt64) : JSt := { j with trails := (h, t) :: j.trails.filter (·.1 ≠ h) }
+  match words opLine with
+  | ["reset"] => { j with trails := [] }
+  | ["new", h, n, c] => match parseHandle h with
+    | some h => set j h (mixHash 7 (hash (n ++ " " ++ c)))
+    | none => j
+  | ["clone", a, b] => match parseHandle a, parseHandle b with
+    | some a, some b => set j b (get a)
+    | _, _ => j
+  | ["slice", a, v, b, rej] => match parseHandle a, parseHandle b with
+    | some a, some b => set j b (mixHash (get a) (hash ("slice " ++ v ++ " " ++ rej)))
+    | _, _ => j
+  | ["reload", a, b] => match parseHandle a, parseHandle b with
+    | some a, some b => set j b (mixHash (get a) 11)
+    | _, _ => j
+  | ["merge", a, b, l, r] => match parseHandle a, parseHandle b with
+    | some a, some b => set j a (mixHash (mixHash (get a) (get b)) (hash ("merge " ++ l ++ " " ++ r)))
+    | _, _ => j
+  | cmd :: h :: rest =>
+    if cmd ∈ ["observe", "snap", "same", "samesnap", "save", "loadcuts", "xml", "dot", "debug", "display", "inspect", "vprint", "hex", "label"] then j
+    else match parseHandle h with
+      | some a => set j a (mixHash (get a) (hash (" ".intercalate (cmd :: rest))))
+      | none => j
+  | _ => j
+
 /-- the text exports first, then everything else -/
-def judgeLine (j : JSt) (lineNo : Nat) (opLine obsLine : String) : JSt :=
+def judgeLine1 (j : JSt) (lineNo : Nat) (opLine obsLine : String) : JSt :=
   match words opLine with
   | [cmd, a] =>
     if cmd = "xml" ∨ cmd = "dot" ∨ cmd = "debug" ∨ cmd = "display" then
@@ -910,6 +945,9 @@ def judgeLine (j : JSt) (lineNo : Nat) (opLine obsLine : String) : JSt :=
       | none => j
     else judgeLine2 j lineNo opLine obsLine
   | _ => judgeLine2 j lineNo opLine obsLine
+
+def judgeLine (j : JSt) (lineNo : Nat) (opLine obsLine : String) : JSt :=
+  bumpTrail (judgeLine1 j lineNo opLine obsLine) opLine
 
 def PureMon.json (p : PureMon) : String :=
   "{" ++ s!"\"hex_lines\":{p.hexLines},\"concat_lines\":{p.concatLines},\"concat_law_failures\":{p.concatDefect},\"label_lines\":{p.labelLines},\"legal_texts\":{p.legalTexts},\"distinct_labels\":{p.seen.length},\"panics_agreed_with_slice\":{p.panicsAgreed}" ++ "}"
